@@ -85,7 +85,7 @@ def run(model: RepoModel, rep, tier: str):
                        "covered by the boundary the handler returns (or laid out before a covered body)", min_instances=60)
     rep.rule("C04.R2", "every operation that owns a body and branches or loops has a CFG handler (or is dispatched by name inside one)", 10)
     rep.rule("C04.R3", "walker discipline: every row of a block is visited exactly once; a negative boundary means 'control does not continue'; a handler that can return a negative "
-                       "boundary together with a live frontier must not make the block walker drop the rest of the block", 2)
+                       "boundary together with a live frontier must not make the block walker drop the rest of the block", 5)
     rep.rule("C04.R4", "break/continue/return plumbing: loop handlers create a fresh special list, pass it to the body and resolve it; "
                        "return links to the exit and cuts the frontier; analyze() links the final frontier to the exit", 6)
     rep.rule("C04.R6", "frontier conservation: the frontier a sub-block returns is handed on whole -- never filtered, never dropped -- and "
@@ -243,6 +243,46 @@ def run(model: RepoModel, rep, tier: str):
                           + " -- a row of the block is skipped (the statement is no CFG node and has no edges) or handled twice")
         else:
             rep.holds("C04.R3", key, FILE, L.lineno, f"position `{pos_v}` moves to `{pos_v} + 1` or `{bd_v} + 1`; `{bd_v}` is a handler result or `{pos_v}`")
+
+    # the extent of a statement with several blocks is the LARGEST end over all its blocks, in whatever order the caller lists them
+    # (frontends lay a class out as methods-then-fields, the handler lists fields-then-methods): the helper keeps a running maximum
+    gb = model.module("util/gir_block.py").classes.get("GIRBlockViewer") if "util/gir_block.py" in model.modules else None
+    bm = gb.methods.get("boundary_of_multi_blocks") if gb else None
+    if bm is None:
+        raise AnalysisError("GIRBlockViewer.boundary_of_multi_blocks vanished")
+    key = "util/gir_block.py::GIRBlockViewer.boundary_of_multi_blocks::running maximum over all listed blocks"
+    rets = [r.value.id for r in walk_no_nested(bm.node) if isinstance(r, ast.Return) and isinstance(r.value, ast.Name)]
+    bcfg = cfg_of(bm.node)
+    bad = None
+    n_upd = 0
+    for n_ in bcfg.g.nodes:
+        st_ = bcfg.stmt.get(n_)
+        if bcfg.kind[n_] == "stmt" and isinstance(st_, ast.Assign) and len(st_.targets) == 1 and isinstance(st_.targets[0], ast.Name) \
+                and st_.targets[0].id in rets and any(n_ in body for body in bcfg.loop_body_nodes.values()):
+            n_upd += 1
+            R, V = st_.targets[0].id, st_.value
+            if isinstance(V, ast.Call) and call_name(V) == "max" and any(isinstance(a, ast.Name) and a.id == R for a in V.args):
+                continue
+            guarded = False
+            for atom, truth in bcfg.conditions_at(n_):
+                if isinstance(atom, ast.Compare) and len(atom.ops) == 1:
+                    l, r, op = norm(atom.left), norm(atom.comparators[0]), atom.ops[0]
+                    if {l, r} == {norm(V), R}:
+                        greater = (l == norm(V) and isinstance(op, (ast.Gt, ast.GtE))) or (r == norm(V) and isinstance(op, (ast.Lt, ast.LtE)))
+                        if greater == truth:
+                            guarded = True
+            if not guarded:
+                bad = st_
+    if bad is not None:
+        rep.violation("C04.R3", key, "util/gir_block.py", bad.lineno,
+                      f"`{norm(bad)}` replaces the result without comparing it with what was found so far: the helper returns the end of the LAST "
+                      f"listed block that exists, not the largest end -- when a frontend lays the blocks out in another order than the handler "
+                      f"lists them (a Python class: methods before fields) the walker resumes inside the statement and walks one of its blocks "
+                      f"as straight-line code of the enclosing method")
+    elif n_upd:
+        rep.holds("C04.R3", key, "util/gir_block.py", bm.node.lineno, "every update of the result is a maximum with the previous result")
+    else:
+        rep.unknown("C04.R3", key, "util/gir_block.py", bm.node.lineno, "no update of the returned variable inside a loop recognised")
 
     # ------------------------------------------------------------------ R4
     dl = cfa.methods.get("deal_with_last_stmts_of_loop_body")
